@@ -35,11 +35,31 @@ def io_error(kind='Other'):
     return Opaque('io::Error', kind)
 
 
+class SliceReader:
+    """`impl Read for &[u8]`: reading advances the slice stored behind the `&mut &[u8]`"""
+    mode = 'oneshot'
+
+    def __init__(self, ptr):
+        self.ptr = ptr
+
+    def remaining(self):
+        return self.ptr.load().n
+
+    def take_bytes(self, n):
+        sl = self.ptr.load()
+        items = sl.items()[:n]
+        self.ptr.store(SliceRef(sl.ptr, sl.start + n, sl.n - n))
+        return items
+
+
 def as_reader(v):
-    v = deref(v)
-    while isinstance(v, Ptr):
-        v = v.load()
-    return v
+    p = v
+    while isinstance(p, Ptr):
+        t = p.load()
+        if isinstance(t, SliceRef):
+            return SliceReader(p)
+        p = t
+    return p
 
 
 def utf8_valid(bs):
@@ -95,6 +115,11 @@ def register(M):
             if res.variant == 'Ok':
                 r.limit = ex.binop('Sub', r.limit, Sc(z3.ZeroExt(0, res.f[0].t), 'u64') if res.f[0].ty == 'u64' else ex.cast(res.f[0], 'u64', 'IntToInt'))
             return res
+        if isinstance(r, SliceReader):
+            n = min(sl.n, r.remaining())
+            for i, x in enumerate(r.take_bytes(n)):
+                sl.set(i, x)
+            return Ok(mk_int(n, 'usize'))
         if not isinstance(r, CursorV):
             raise Unsupported('Read::read on %s' % type(r).__name__)
         avail = min(sl.n, r.remaining())
@@ -151,7 +176,7 @@ def register(M):
 
     @M.trait('Read', 'take')
     def _take(ex, args, info):
-        return TakeV(as_reader(args[0]) if not isinstance(args[0], (CursorV, TakeV)) else args[0], args[1])
+        return TakeV(as_reader(args[0]) if not isinstance(args[0], (CursorV, TakeV, SliceReader)) else args[0], args[1])
 
     @M.trait('Read', 'by_ref')
     def _by_ref(ex, args, info):
@@ -167,7 +192,7 @@ def register(M):
         while isinstance(cur, TakeV):
             lim = cur.limit if lim is None else lim
             cur = cur.inner
-        if not isinstance(cur, CursorV):
+        if not isinstance(cur, (CursorV, SliceReader)):
             raise Unsupported('read_to_end on %s' % type(cur).__name__)
         rem = cur.remaining()
         if lim is None:
@@ -179,8 +204,11 @@ def register(M):
                 w = lim.t.size()
                 conds = [lim.t == z3.BitVecVal(k, w) for k in range(rem)] + [z3.UGE(lim.t, z3.BitVecVal(rem, w))]
                 n = ex.choose(conds, 'Take limit vs. remaining input')
-        chunk = cur.data[cur.pos:cur.pos + n]
-        cur.pos += n
+        if isinstance(cur, SliceReader):
+            chunk = cur.take_bytes(n)
+        else:
+            chunk = cur.data[cur.pos:cur.pos + n]
+            cur.pos += n
         if isinstance(r, TakeV):
             r.limit = ex.binop('Sub', r.limit, mk_int(n, r.limit.ty))
         if info.method == 'read_to_string':
@@ -208,12 +236,17 @@ def register(M):
         if isinstance(w, VecM):
             w.items.extend(items)
         elif isinstance(w, SinkV):
-            if w.limit is not None and len(w.out) + len(items) > w.limit:
-                room = max(0, w.limit - len(w.out))
-                w.out.extend(items[:room])
+            # a sink with room for `limit` bytes: write() hands out short writes while room is left and fails once it is
+            # full; write_all() is std's loop over write() (so it fails as soon as the sink is full)
+            room = None if w.limit is None else max(0, w.limit - len(w.out))
+            if room is None or len(items) <= room:
+                w.out.extend(items)
+                return Ok(Unit()) if info.method == 'write_all' else Ok(mk_int(len(items), 'usize'))
+            w.out.extend(items[:room])
+            if info.method == 'write_all' or room == 0:
                 w.failed = True
                 return Err(io_error('Other'))
-            w.out.extend(items)
+            return Ok(mk_int(room, 'usize'))
         else:
             h = ex.prog.resolve('<%s as Write>::%s' % (getattr(w, 'name', type(w).__name__), info.method), None) if isinstance(w, Struct) else None
             if h is None:
@@ -238,7 +271,7 @@ def register(M):
             return Ok(StrV(list(items), None))
         return Err(Opaque('FromUtf8Error', VecM(list(items))))
 
-    @M.rx(r'^(?:std|core)::str::from_utf8$', 'str::from_utf8')
+    @M.rx(r'^((?:std|core)::str::from_utf8|from_utf8)$', 'str::from_utf8')
     def _str_from_utf8(ex, m, args, callee, dest):
         v = args[0]
         items = v.items() if isinstance(v, SliceRef) else deref(v).items
